@@ -553,6 +553,9 @@ func (t *TopicEventHandler) NextPeerEvent(ctx context.Context) (PeerEvent, error
 			continue
 		case <-ctx.Done():
 			return PeerEvent{}, ctx.Err()
+		case <-t.topic.p.ctx.Done():
+			// the pubsub instance has been shut down: no further events will be logged
+			return PeerEvent{}, t.topic.p.ctx.Err()
 		}
 	}
 }
